@@ -4,3 +4,4 @@ import Driver.Sched
 import Driver.Report
 import Driver.Spell
 import Driver.Hidden
+import Driver.Wh
